@@ -371,6 +371,35 @@ def obligations(ctx, pid):
     if not lz:
         obs.append(Ob("E0.lazy-iterator", "E0.lazy-iterator", f"{len(specified)} specified functions and the helpers of their modules", "ok",
                       "no lazy iterator (map / filter / zip / generator / itertools.*) is used as a truth value or passed to len()"))
+    # ---- identity comparison with an integer-valued constant (`x is Sign.NEGATIVE`, `x is 1`): the values compared are often plain
+    #      ints (negate() builds signs as -1*self.sign, JSON gives ints), for which identity with an enum member is False
+    ec_all = P.enum_constants()
+    idn = []
+    for q in sorted(scope_funcs):
+        fi = P.functions.get(q)
+        if fi is None:
+            continue
+        for n in ast.walk(fi.node):
+            if isinstance(n, ast.Compare) and any(isinstance(o, (ast.Is, ast.IsNot)) for o in n.ops):
+                for side in [n.left] + list(n.comparators):
+                    val = None
+                    if isinstance(side, ast.Constant) and isinstance(side.value, int) and not isinstance(side.value, bool):
+                        val = side.value
+                    else:
+                        d = dotted(side)
+                        if d:
+                            qn = P.qualify(fi.module, d)
+                            if qn in ec_all and isinstance(ec_all[qn], int) and not isinstance(ec_all[qn], bool):
+                                val = qn
+                    if val is not None:
+                        idn.append((fi, n, val))
+    for fi, n, val in idn:
+        obs.append(Ob(f"E0.identity:{fi.qualname}:{val}", "E0.identity-int", f"{fi.file}:{n.lineno} {fi.qualname}", "violation",
+                      f"`{ast.unparse(n)[:70]}` compares by identity with the integer-valued constant {val}: equal values that are plain "
+                      f"ints (signs after negate(), values read from JSON) are not identical to it", key=f"E0.identity:{fi.qualname}:{val}"))
+    if not idn:
+        obs.append(Ob("E0.identity-int", "E0.identity-int", f"{len(scope_funcs)} functions", "ok",
+                      "no identity comparison with an integer-valued constant"))
     # ---- constants used as axioms
     pm = P.modules.get("puan")
     if pm is not None:
